@@ -82,17 +82,29 @@ def r_C32(root):
     if bad:
         attached, reg, ret, log, expect = bad
         out.append(Finding("C32", "C32.a", M, W, "registered keys %s, provider in grammar: %s, providers %s" % (list(reg), attached, "find nothing" if ret is None else "find an object"), "the providers asked are %s, documented: %s (a provider given in the grammar first, else the first registered key of %s decides whatever it returns, else the default provider)" % (log, expect, want), witness="providers registered for %s" % list(reg)))
-    # ---- C32.b
+    # ---- C32.b by evaluation: register_scope_providers is interpreted on a sample table; afterwards the meta-model's table
+    #      holds exactly the given keys, callables unchanged, every string replaced by the RREL provider made from it, and
+    #      nothing of an earlier registration survives
     mm = load(root, MM); rg = find(mm, "TextXMetaModel.register_scope_providers"); inst += 2
-    p0 = rg.args.args[1].arg
-    repl = [n for n in own_nodes(rg) if isinstance(n, ast.Assign) and any(ast.unparse(tg) == "self.scope_providers" for tg in n.targets) and p0 in {x.id for x in ast.walk(n.value) if isinstance(x, ast.Name)}]
-    ob("C32", "C32.b", MM, "TextXMetaModel.register_scope_providers", "the provider table is replaced by the given one", bool(repl))
-    if not repl:
-        out.append(Finding("C32", "C32.b", MM, "TextXMetaModel.register_scope_providers", "self.scope_providers", "registration merges into the existing table instead of replacing it: a more specific key from an earlier registration stays active and overrides the newly registered providers", witness="register {'User.ref': p1}, later register {'*.*': p2}"))
-    conv = [c for c in calls(rg) if callee_name(c) == "create_rrel_scope_provider"]
-    okb = bool(conv) and any("isinstance" in ast.unparse(g) and "str" in ast.unparse(g) for c in conv for g, p in sem.info(rg).guards(c))
+    rps = [a_.arg for a_ in rg.args.args]
+    prov = {".kind": "callable", ".tag": "given-provider"}
+    given = {"A.x": prov, "*.y": "^pkg.items", "B.*": "+m:~imports.things", "*.*": prov}
+    old_tab = {"Old.key": {".kind": "callable", ".tag": "old"}, "A.x": {".kind": "callable", ".tag": "old"}}
+    self_ = {".kind": "metamodel", ".scope_providers": old_tab}
+    env = {"__functions__": helper_functions(root, MM, "TextXMetaModel.register_scope_providers"), rps[0]: self_, rps[1]: dict(given),
+           "create_rrel_scope_provider": pyeval.PyFn(lambda text, *a, **k: {".kind": "rrel-provider", ".text": text})}
+    env["__functions__"] = {k_: v_ for k_, v_ in env["__functions__"].items() if k_ not in ("register_scope_providers", "create_rrel_scope_provider")}
+    try: pyeval.run_block(rg.body, env); err_ = None
+    except pyeval.Raised as r_: err_ = "raises " + r_.cls
+    except pyeval.Unsupported as u_: raise AnalysisError("register_scope_providers: outside the evaluated subset: %s" % u_)
+    tab = self_.get(".scope_providers")
+    ok_repl = err_ is None and isinstance(tab, dict) and set(tab) == set(given) and tab.get("A.x") is prov
+    ob("C32", "C32.b", MM, "TextXMetaModel.register_scope_providers", "the provider table is replaced by the given one", ok_repl)
+    if not ok_repl:
+        out.append(Finding("C32", "C32.b", MM, "TextXMetaModel.register_scope_providers", "self.scope_providers", "after registering the keys %s over an earlier table %s the meta-model's table has the keys %s%s: registration must replace the table (a more specific key from an earlier registration would keep winning)" % (sorted(given), sorted(old_tab), sorted(tab) if isinstance(tab, dict) else tab, "" if err_ is None else " (" + err_ + ")")))
+    okb = err_ is None and isinstance(tab, dict) and all(isinstance(tab.get(k_), dict) and tab[k_].get(".kind") == "rrel-provider" and tab[k_].get(".text") == v_ for k_, v_ in given.items() if isinstance(v_, str)) and all(tab.get(k_) is v_ for k_, v_ in given.items() if not isinstance(v_, str))
     ob("C32", "C32.b", MM, "TextXMetaModel.register_scope_providers", "string values become RREL providers", okb)
-    if not okb: out.append(Finding("C32", "C32.b", MM, "TextXMetaModel.register_scope_providers", "create_rrel_scope_provider", "string values of the provider table are not converted to RREL providers"))
+    if not okb: out.append(Finding("C32", "C32.b", MM, "TextXMetaModel.register_scope_providers", "create_rrel_scope_provider", "string values of the provider table are not converted to RREL providers made from that string (or a callable is not kept as given)"))
     return inst, out
 
 def r_C32c(root):
